@@ -49,6 +49,13 @@ func upperBounded(fn *ssa.Function, at ssa.Instruction, expr ssa.Value) bool {
 
 // upperBoundedBy: a dominating comparison bounds expr from above by a constant <= maxK.
 func upperBoundedBy(fn *ssa.Function, at ssa.Instruction, expr ssa.Value, maxK int64) bool {
+	if ub, ok := provenUpper(at, expr); ok && ub <= maxK {
+		return true
+	}
+	return upperBoundedByLoc(fn, at, expr, maxK)
+}
+
+func upperBoundedByLoc(fn *ssa.Function, at ssa.Instruction, expr ssa.Value, maxK int64) bool {
 	e := linearLoc(expr)
 	if !e.ok {
 		return false
@@ -304,6 +311,14 @@ func c19SliceGuards(c *Ctx) {
 					}
 				}
 			}
+			// (a') the same through the partition engine: any spelling of the comparison, guards in the
+			// caller of a new helper, a hoisted "body := m.Body"
+			if !guardOK {
+				lenOf := &lenProbe{x: sl.X}
+				if lb, ok := provenLowerLen(sl, lenOf.x); ok && lb >= need {
+					guardOK = true
+				}
+			}
 			// (c) a buffer allocated here with a sufficient constant part: make([]byte, len(x)+40)
 			if ms, ok := stripSlices(sl.X).(*ssa.MakeSlice); ok && !guardOK {
 				lf := linearLoc(ms.Len)
@@ -470,4 +485,61 @@ func leavesNoConv(v ssa.Value) []ssa.Value {
 	}
 	walk(v)
 	return out
+}
+
+type lenProbe struct{ x ssa.Value }
+
+// provenLowerLen: proven lower bound of len(x) at instruction at.
+func provenLowerLen(at ssa.Instruction, x ssa.Value) (int64, bool) {
+	atom := "len(" + batom(x, 0) + ")"
+	best, found := int64(0), false
+	fn := at.Parent()
+	pos := at
+	for depth := 0; depth < 4; depth++ {
+		for _, b := range fn.Blocks {
+			iff := lastIf(b)
+			if iff == nil {
+				continue
+			}
+			p, ok := partitionOf(iff.Cond)
+			if !ok || len(p.atoms) != 1 {
+				continue
+			}
+			n, has := p.atoms[atom]
+			if !has {
+				continue
+			}
+			for _, taken := range []bool{true, false} {
+				to := b.Succs[1]
+				if taken {
+					to = b.Succs[0]
+				}
+				if !(len(to.Preds) == 1 && (to == pos.Block() || to.Dominates(pos.Block()))) {
+					continue
+				}
+				upperHere := (p.upper == p.truth) == taken
+				var v int64
+				switch {
+				case n == 1 && upperHere:
+					v = p.t + 1
+				case n == -1 && !upperHere:
+					v = -p.t
+				default:
+					continue
+				}
+				if !found || v > best {
+					best, found = v, true
+				}
+			}
+		}
+		if !(newHelpers[fn] && len(helperSites[fn]) == 1) {
+			break
+		}
+		cs := helperSites[fn][0]
+		// the slice operand as the caller sees it
+		atom = "len(" + batom(x, 0) + ")"
+		fn = cs.Parent()
+		pos = cs
+	}
+	return best, found
 }
